@@ -27,7 +27,7 @@ package nsqd
 
 // Called by the pump only after SUB stored the channel (messagePump tests subChannel != nil first).
 //@ func (c *clientV2) IsReadyForMessages() bool
-//@   props C03 C13
+//@   props C03 C13 C20 C19
 //@   requires c != nil && c.Channel != nil
 //@   ensures[ready-implies] result ==> !chanPaused(c.Channel) && c.ReadyCount > 0 && c.InFlightCount < c.ReadyCount
 //@   ensures[converse] !chanPaused(c.Channel) && c.ReadyCount > 0 && c.InFlightCount < c.ReadyCount ==> result
@@ -53,7 +53,7 @@ package nsqd
 //@   onreturn pumpKicked := c
 
 //@ func (c *clientV2) SetReadyCount(count int64)
-//@   props C03 C13
+//@   props C03 C13 C20 C19
 //@   requires c != nil
 //@   ensures[ready-set] c.ReadyCount == count
 //   every CHANGE of the ready count - up or down, RDY 0 and CLS included - wakes the delivery pump so that it re-evaluates
@@ -63,7 +63,7 @@ package nsqd
 //@   modifies c.ReadyCount
 
 //@ func (c *clientV2) FinishedMessage()
-//@   props C03 C13 C02
+//@   props C03 C13 C02 C20 C19
 //@   requires c != nil
 //@   ensures[finish-count] c.FinishCount == wrapU64(old(c.FinishCount) + 1)
 //@   ensures[in-flight] c.InFlightCount == wrapI64(old(c.InFlightCount) - 1)
@@ -73,7 +73,7 @@ package nsqd
 //@   modifies c.FinishCount, c.InFlightCount
 
 //@ func (c *clientV2) RequeuedMessage()
-//@   props C03 C13 C02
+//@   props C03 C13 C02 C20 C19
 //@   requires c != nil
 //@   ensures[requeue-count] c.RequeueCount == wrapU64(old(c.RequeueCount) + 1)
 //@   ensures[in-flight] c.InFlightCount == wrapI64(old(c.InFlightCount) - 1)
@@ -83,7 +83,7 @@ package nsqd
 //@   modifies c.RequeueCount, c.InFlightCount
 
 //@ func (c *clientV2) SendingMessage()
-//@   props C03 C13 C02
+//@   props C03 C13 C02 C20 C19
 //@   requires c != nil
 //@   ensures[message-count] c.MessageCount == wrapU64(old(c.MessageCount) + 1)
 //@   ensures[in-flight] c.InFlightCount == wrapI64(old(c.InFlightCount) + 1)
@@ -93,7 +93,7 @@ package nsqd
 //@   onreturn lSendingFor := c
 
 //@ func (c *clientV2) TimedOutMessage()
-//@   props C03 C13 C02
+//@   props C03 C13 C02 C20 C19
 //@   requires c != nil
 //@   ensures[in-flight] c.InFlightCount == wrapI64(old(c.InFlightCount) - 1)
 //@   ensures[in-flight-nowrap] old(c.InFlightCount) > -9223372036854775808 ==> c.InFlightCount == old(c.InFlightCount) - 1
